@@ -622,7 +622,8 @@ func (e *Engine) findTeddyAt(haystack []byte, at int) *Match {
 	// For Fat Teddy with small haystacks, use Aho-Corasick fallback.
 	if e.fatTeddyFallback != nil && len(haystack) < fatTeddySmallHaystackThreshold {
 		atomic.AddUint64(&e.stats.AhoCorasickSearches, 1)
-		match, found := e.fatTeddyFallback.FindAt(haystack, at)
+		// Find searches from 'at'; FindAt would only try a literal starting exactly there.
+		match, found := e.fatTeddyFallback.Find(haystack, at)
 		if !found {
 			return nil
 		}
@@ -729,11 +730,11 @@ func (e *Engine) findAhoCorasick(haystack []byte) *Match {
 	}
 	atomic.AddUint64(&e.stats.AhoCorasickSearches, 1)
 
-	m, found := e.ahoCorasick.Find(haystack, 0)
+	start, end, found := e.ahoCorasickSpan(haystack, 0)
 	if !found {
 		return nil
 	}
-	return NewMatch(m.Start, m.End, haystack)
+	return NewMatch(start, end, haystack)
 }
 
 // findAhoCorasickAt searches using Aho-Corasick starting at position 'at'.
@@ -743,9 +744,9 @@ func (e *Engine) findAhoCorasickAt(haystack []byte, at int) *Match {
 	}
 	atomic.AddUint64(&e.stats.AhoCorasickSearches, 1)
 
-	m, found := e.ahoCorasick.Find(haystack, at)
+	start, end, found := e.ahoCorasickSpan(haystack, at)
 	if !found {
 		return nil
 	}
-	return NewMatch(m.Start, m.End, haystack)
+	return NewMatch(start, end, haystack)
 }
